@@ -16,7 +16,7 @@ from vm.ctx import Violation
 RESERVED_LIST = ('taxonomy', 'collapsed_ids', 'Taxonomy', 'KEGG_Pathways')
 
 
-def in_c01_domain(s, allow_empty_axis=False):
+def in_c01_domain(s, allow_empty_axis=False, any_list_names=False):
     """Domain predicate over an observed snapshot (after a random history)."""
     if not allow_empty_axis and (not s.obs_ids or not s.samp_ids):
         return 'empty axis'
@@ -51,7 +51,8 @@ def in_c01_domain(s, allow_empty_axis=False):
                     kinds.add('str')
                 elif isinstance(v, list):
                     kinds.add('list')
-                    if k not in RESERVED_LIST or not v or any(
+                    if (k not in RESERVED_LIST and not any_list_names) or \
+                            not v or any(
                             (not isinstance(x, str)) or not x for x in v):
                         return 'list metadata outside the reserved form'
                 else:
@@ -166,7 +167,7 @@ def write_config(r):
         'compress': r.random() < .5,
         'writer': r.choice(['to_hdf5', 'to_hdf5', 'save_table',
                             'save_table_default', 'save_table_handle',
-                            'save_table_pathlib']),
+                            'save_table_pathlib', 'to_hdf5_userblock']),
         'date': r.choice(['given', 'given', 'omitted']),
         'group_md': r.random() < .4,
         'table_id': r.choice([None, None, 'tbl-1', 'таблица "x"/7',
@@ -227,6 +228,10 @@ DATES = [datetime.datetime(2021, 3, 4, 5, 6, 7, 891011),
                                                           59, 59)]
 
 
+def r_userblock(cfg):
+    return [512, 1024, 4096][cfg.get('date_variant', 0) % 3]
+
+
 def write(ctx, t, cfg, path):
     """Writes t per cfg; returns dict of what was passed."""
     if cfg['table_id'] is not None:
@@ -273,6 +278,12 @@ def write(ctx, t, cfg, path):
     if cfg['writer'] == 'to_hdf5':
         with h5py.File(path, 'w') as f:
             t.to_hdf5(f, cfg['generated_by'], **kw)
+    elif cfg['writer'] == 'to_hdf5_userblock':
+        # an HDF5 file may start with a user block (512, 1024, ... bytes of
+        # anything); the HDF5 signature then sits behind it
+        with h5py.File(path, 'w', userblock_size=r_userblock(cfg)) as f:
+            t.to_hdf5(f, cfg['generated_by'], **kw)
+        ctx.count('files_with_user_block')
     elif cfg['writer'] == 'save_table':
         ctx.biom.save_table(t, path, generated_by=cfg['generated_by'], **kw)
     elif cfg['writer'] == 'save_table_handle':
@@ -356,6 +367,22 @@ def gen_case(ctx, index, empty_axis_ok=False):
                 for q in r.sample(range(len(md)), r.randint(1, len(md) - 1)):
                     md[q][k] = None
                 ctx.count('list_category_with_null_entries')
+    if empty_axis_ok and r.random() < .2:
+        # what the file holds is decided by the specification, not by which
+        # category names the library's own reader knows: list-valued
+        # categories under other names, '/' included (C04 only: the library's
+        # reader gives such categories back in another form)
+        for md in (spec.obs_md, spec.samp_md):
+            names = {k for e in (md or []) for k, v in e.items()
+                     if isinstance(v, list)}
+            # (a list category with unknown entries is only defined for the
+            # reserved names)
+            names = {k for k in names if all(e.get(k) is not None
+                                             for e in md)}
+            for e in (md or []):
+                for k in names:
+                    e['lineage/levels'] = e.pop(k)
+                    ctx.count('list_category_under_other_name')
     if empty_axis_ok and index % 9 == 0:
         # 0 x M or N x 0 tables (C04 only)
         if r.random() < .5:
@@ -384,7 +411,8 @@ def gen_case(ctx, index, empty_axis_ok=False):
     if st.startswith('csc'):
         ctx.count('layout_csc_seen')
     src = snap.snap(t)
-    why = in_c01_domain(src, allow_empty_axis=empty_axis_ok)
+    why = in_c01_domain(src, allow_empty_axis=empty_axis_ok,
+                        any_list_names=empty_axis_ok)
     if why:
         ctx.skip('out of C01 domain after history: ' + why)
         return None
